@@ -735,7 +735,23 @@ class Interp:
         env.set(s.name, Closure(s, env, s.name))
 
     def st_ClassDef(self, s, env):
-        raise Unsupported("nested class definition", s)
+        """A class statement inside a function: the class object is a record whose attributes are the names bound in the class body
+        (plain assignments evaluated in the enclosing scope, functions kept as closures, not bound methods).  Decorators, keywords
+        (metaclass=) and anything else in the body are outside the subset."""
+        if s.decorator_list or s.keywords:
+            raise Unsupported("nested class definition with decorators / keywords", s)
+        body_env = Env(parent=env)
+        for st in s.body:
+            if isinstance(st, ast.Expr) and isinstance(st.value, ast.Constant):
+                continue  # docstring
+            if isinstance(st, (ast.Assign, ast.AnnAssign, ast.FunctionDef, ast.Pass)):
+                self.exec_stmt(st, body_env)
+            else:
+                raise Unsupported("statement in a nested class body", st)
+        attrs = dict(body_env.vars) if hasattr(body_env, "vars") else {}
+        attrs["__name__"] = s.name
+        attrs["__bases__"] = tuple(self.eval(b, env) for b in s.bases)
+        env.set(s.name, Rec("class " + s.name, attrs=attrs))
 
     def st_If(self, s, env):
         c = self.eval_truth(s.test, env)
@@ -1516,6 +1532,8 @@ class Interp:
             return self.call_class(fval, args, kwargs, node)
         if isinstance(fval, BuiltinFn):
             return fval.fn(self, args, kwargs, node)
+        if isinstance(fval, Rec) and "__call__" in fval.methods:
+            return fval.methods["__call__"](self.ctx, fval, args, kwargs)
         if self.symcall is not None:
             r = self.symcall(self.ctx, fval, args, kwargs)
             if r is not NotImplemented:
